@@ -131,8 +131,10 @@ Definition image_size (i : image) : N := 4 * (i_pre i + lenN (i_tab i) + lenN (i
     num_coupons <= 64 k (the bit matrix has k rows of 64 columns); table_num_entries <= 3/4 * 64 k (the load limit of a
     u32_table at its largest size 2^(6+lg_k): beyond it make_from_pairs would need more slots than there are values);
     window words <= safe_length_for_compressed_window_buf(k); table words <= safe_length_for_compressed_pair_buf(k, n, b)
-    with b the Golomb parameter the decoder will use (0 when there are no entries).  Every image the writer produces
-    satisfies them (CpcImageProofs.v). *)
+    with b the Golomb parameter the decoder will use (0 when there are no entries); and, the other way round, a window
+    takes at least one bit per byte (k <= 32 * window words) and a pair at least two bits (entries <= 16 * table words),
+    so that everything the readers build from the counts is bounded by the data they were given.  Every image the
+    writer produces satisfies them (CpcImageProofs2.image_of_sketch_wf). *)
 Definition table_words_bound (l tne : N) : option N :=
   let k := w32 (N.shiftl 1 l) in
   do nbb <- (if tne =? 0 then Some 0 else surprising_values_base_bits tne l);
@@ -141,7 +143,8 @@ Definition table_words_bound (l tne : N) : option N :=
 Definition counts_ok (l nc tne tw ww : N) : bool :=
   let k := 2 ^ l in
   (nc <=? 64 * k) && (4 * tne <=? 192 * k) && (ww <=? safe_length_for_compressed_window_buf k) &&
-  match table_words_bound l tne with Some b => tw <=? b | None => false end.
+  match table_words_bound l tne with Some b => tw <=? b | None => false end &&
+  ((ww =? 0) || (k <=? 32 * ww)) && (tne <=? 16 * tw).
 
 (** * the two readers up to the point where both hold the same compressed_state *)
 
